@@ -205,3 +205,22 @@ func (x *Exec) noteOutsideRef(t types.Type, v string) {
 	x.outsideRefs = append(x.outsideRefs, ref)
 	x.c.assume(x.notPrivate(ref))
 }
+
+// assumeIntRange: in integer mode a value of a Go integer type lies within the range of that type (type invariant
+// of inputs and of heap cells); for struct values, field by field
+func (x *Exec) assumeIntRange(t types.Type, v string) {
+	if !x.c.Int {
+		return
+	}
+	t = types.Unalias(t)
+	if st, ok := t.Underlying().(*types.Struct); ok {
+		for i := 0; i < st.NumFields(); i++ {
+			x.assumeIntRange(st.Field(i).Type(), x.c.fieldOf(st, v, i))
+		}
+		return
+	}
+	if ii, ok := basicInt(t); ok {
+		lo, hi := intRange(ii)
+		x.c.assume(and(sx("<=", lo, v), sx("<=", v, hi)))
+	}
+}
